@@ -632,6 +632,7 @@ func RunCommon(prop string, c *run.Ctx, s *kit.Summary, children func([]Job, int
 		pumpStream(c, s, r)
 		if c.Replay == "" {
 			RaceRun("./cmd/c02", c, s, r)
+			DualStackRuns(c, s, r)
 		}
 	}
 }
